@@ -366,11 +366,25 @@ func twinNames(x string, style int) []string {
 		return []string{x + "é"}
 	case 5:
 		return []string{x + " b"}
+	case 6: // CJK names of the same length and shape
+		return []string{x + "页眉", x + "页脚"}
+	case 7: // Cyrillic, same length
+		return []string{x + "шапка", x + "пятка"}
+	case 8: // Devanagari: the names differ only in a combining vowel sign
+		return []string{x + "बेल", x + "बैल"}
+	case 9: // decomposed accents vs no accents (and the original stays plain ASCII)
+		return []string{x + "re\u0301sume\u0301", x + "resume", x + "r\u00e9sum\u00e9"}
+	case 10: // a format (Cf) character: zero width joiner
+		return []string{x + "ab", x + "a\u200db"}
+	case 11: // non-ASCII letter case
+		return []string{x + "\u0130b", x + "ib", x + "Ib"}
+	case 12: // Thai and Arabic marks
+		return []string{x + "\u0e01\u0e34", x + "\u0e01\u0e35", x + "\u0628\u064e", x + "\u0628\u064f"}
 	}
 	return []string{"T" + x}
 }
 
-const twinStyles = 6
+const twinStyles = 13
 
 // twinOf resolves an include target: for a twin file name of an X in Twins it returns X and true.
 func twinOf(c *Case, name string) (string, bool) {
@@ -2070,8 +2084,8 @@ func universe(fill []string, p uparams) Case {
 		P = append(P, a)
 	}
 	P = append(P, inc("B"))
-	for _, tn := range twinNames("A", p.twin) { // the twin file(s) of A, after A itself
-		P = append(P, inc(tn))
+	for _, tn := range twinNames("A", p.twin) { // the twin file(s) of A, after A itself, twice each
+		P = append(P, inc(tn), inc(tn))
 	}
 	if u.fill["s2"] {
 		u.kinds++
@@ -2723,7 +2737,7 @@ func TestProp(t *testing.T) {
 	shard, shards := run.Shard()
 	// exhaustive: every choice of 1..k slots of the universe site x parameter sets x entry histories
 	params := []uparams{
-		{2, 2, 2, "none", 0, 1, 1, 1, 1}, {0, 1, 3, "l1", 1, 2, 2, 3, 3}, {3, 0, 1, "l1-l2", 2, 1, 3, 5, 2}, {1, 3, 2, "base", 3, 2, 1, 2, 4},
+		{2, 2, 2, "none", 0, 1, 1, 6, 1}, {0, 1, 3, "l1", 1, 2, 2, 8, 3}, {3, 0, 1, "l1-l2", 2, 1, 3, 1, 2}, {1, 3, 2, "base", 3, 2, 1, 9, 4},
 	}
 	maxFill := 2
 	if run.Thorough() {
